@@ -91,6 +91,9 @@ class SnarkjsProve(_Backend):
             cons.append(row)
         m.constraints[:] = cons
         self._pub, self._priv, self._cons = list(m.pubvals), list(m.privvals), cons
+        # the working directory already holds the (longer) files of an earlier, larger computation
+        c.w.fs["witness.wtns"] = [b"\x07" * 4096]
+        c.w.fs["circuit.r1cs"] = [b"\x07" * 4096]
         return m.prove, (), {}
 
     def post(self, c, r):
@@ -101,6 +104,8 @@ class SnarkjsProve(_Backend):
         nw = 1 + npub + npriv
         for fname in ("witness.wtns", "circuit.r1cs"):
             d["F.written_and_closed[%s]" % fname] = fname in w.fs and ("close", fname) in w.io_events
+            # declared sizes = actual content: nothing of an earlier file survives behind what this run wrote
+            d["F.replaces_earlier_file[%s]" % fname] = fname not in getattr(w, "stale_tail", {})
         if not all(d.values()):
             return d
         # ---- witness.wtns ------------------------------------------------------------
